@@ -93,6 +93,10 @@ func (p *Proxy) ServeHTTP(w http.ResponseWriter, proxyReq *http.Request) {
 	} else {
 		if err := p.handleHTTP(r, proxyReq); err != nil {
 			slog.Error("Error handling HTTP request", "error", err)
+			if r.Failed() {
+				// The response is incomplete: cut the connection, which is the only way to tell the client
+				panic(http.ErrAbortHandler)
+			}
 			return
 		}
 	}
